@@ -323,6 +323,39 @@ def merge_collisions(chk, facts):
     chk.ob(rule, "merge:occupied", bool(errs), "without renaming a collision is reported as an error: %s" % bool(errs), where=f.where(), fn=f.name)
 
 
+def fresh_ids(chk, facts):
+    """A `fresh` id handed out while renaming is unoccupied as a template id *and* as a link id in *both* policy sets: the id returned
+    by get_fresh_id has been put to both sets' occupancy test, and that test looks at both tables."""
+    from lib.slice import leaf_producers
+    rule = "C08.GUARD.ids"
+    g = get_fn(chk, facts, rule, AST_PS + "policy_id_is_bound")
+    if g is not None:
+        flds = set()
+        for b, t in g.calls():
+            if callee(t).split("::")[-1] == "contains_key" and t[2]:
+                for x in leaf_producers(g, t[2][0]):
+                    for fld in ("templates", "links"):
+                        if str(x).endswith(fld) or ("." + fld) in str(x):
+                            flds.add(fld)
+        chk.ob(rule, "bound:tables", flds == {"templates", "links"}, "an id is occupied when it is a key of `templates` or of `links`: tables consulted %s" % sorted(flds),
+               where=g.where(), fn=g.name, sample={"tables": sorted(flds)})
+    f = get_fn(chk, facts, rule, AST_PS + "get_fresh_id")
+    if f is not None:
+        rets = set(cfg.return_blocks(f))
+        asked = {}
+        for b, t in f.calls():
+            if callee(t).endswith("PolicySet::policy_id_is_bound") and t[2]:
+                for x in leaf_producers(f, t[2][0]):
+                    if str(x) in ("param:1", "param:2"):
+                        asked.setdefault(str(x), set()).add(b)
+        ok = all(asked.get(p_) and cfg.must_pass(f, 0, rets, asked[p_]) for p_ in ("param:1", "param:2"))
+        chk.ob(rule, "fresh:both-sets", ok,
+               "get_fresh_id returns an id only after asking both policy sets whether it is occupied (as a template or as a link): %s" % {k: sorted(v) for k, v in asked.items()}
+               if ok else "get_fresh_id can return an id without the full occupancy test (policy_id_is_bound) of %s: a `fresh` id may collide with a template or link of that set"
+               % [n_ for p_, n_ in (("param:1", "self"), ("param:2", "other")) if not (asked.get(p_) and cfg.must_pass(f, 0, rets, asked[p_]))],
+               where=f.where(), fn=f.name, sample={"asked": {k: sorted(v) for k, v in asked.items()}})
+
+
 def removal_guards(chk, facts):
     """No link exists without its template: remove_template takes the template out only when its link set is known and empty, and
     only for an id that is not a link; unlink only for an id that is not a template."""
@@ -637,6 +670,7 @@ def run(chk, facts, tier):
     id_guards(chk, facts)
     pair_index(chk, facts)
     merge_collisions(chk, facts)
+    fresh_ids(chk, facts)
     removal_guards(chk, facts)
     binding(chk, facts)
     equality(chk, facts)
